@@ -522,6 +522,8 @@ class Engine(Interp):
             rty = self.reg.type(c.returns)
             if isinstance(rty, TData):
                 result = SData(rty.unwrap(result, self.ctx), rty)
+            elif hasattr(rty, "coerce"):
+                result = rty.coerce(result, self.ctx)
         post_env = dict(env)
         post_env.update(getattr(self.frame, "entry", {}))
         post_env["result"] = result
